@@ -42,6 +42,7 @@ type c16X struct {
 	DataOp      int
 	NoopOp      int
 	ViaSendMail bool
+	Slow        bool // the producer pauses longer than CommandTimeout between two writes
 }
 
 // drawClientBody draws an 8-bit body in which CR occurs only as part of CRLF.
@@ -127,6 +128,16 @@ func genC16(t *Tape, tier string) *Scenario {
 			parts = append(parts, 1+t.Intn(50))
 		}
 	}
+	// a slow producer: the second Write comes later than the client's CommandTimeout (5 min)
+	var gap Dur
+	if len(x.Body) > 1 && t.Chance(1, 10) {
+		gap = 6 * time.Minute
+		sc.Srv.ReadTO = 0
+		if len(parts) == 0 {
+			parts = []int{1 + t.Intn(len(x.Body)-1), len(x.Body)}
+		}
+		x.Slow = true
+	}
 	cl := &ClientScript{LMTP: sc.Srv.LMTP}
 	switch t.Pick(3, 2, 2) {
 	case 1:
@@ -146,7 +157,7 @@ func genC16(t *Tape, tier string) *Scenario {
 			cl.Ops = append(cl.Ops, ClientOp{Kind: opRcpt, Arg: r})
 		}
 		x.DataOp = len(cl.Ops)
-		cl.Ops = append(cl.Ops, ClientOp{Kind: opData, Body: x.Body, Parts: parts, CloseTwice: true, UseCb: x.UseCb})
+		cl.Ops = append(cl.Ops, ClientOp{Kind: opData, Body: x.Body, Parts: parts, CloseTwice: true, UseCb: x.UseCb, Gap: gap})
 	}
 	x.NoopOp = len(cl.Ops)
 	cl.Ops = append(cl.Ops, ClientOp{Kind: opNoop}, ClientOp{Kind: opQuit})
@@ -246,7 +257,7 @@ func checkC16(sc *Scenario, h *History) []Violation {
 	if res[x.NoopOp].Err != "" {
 		v("C16.after", "NOOP after the message failed: %s", res[x.NoopOp].Err)
 	}
-	if d.End-d.Begin > int64(time.Minute) {
+	if d.End-d.Begin > int64(time.Minute) && !x.Slow {
 		v("C16.slow", "the DATA exchange took %v of fake time", time.Duration(d.End-d.Begin))
 	}
 	return out
@@ -290,6 +301,9 @@ func classifyC16(sc *Scenario, h *History, st *Stats) string {
 	}
 	if x.ViaSendMail {
 		st.Probes["via_Client.SendMail"]++
+	}
+	if x.Slow {
+		st.Faults["producer_pauses_longer_than_CommandTimeout"]++
 	}
 	if !nt {
 		return ""
